@@ -633,6 +633,22 @@ func (cg *caseGen) memoFloodGrammar() {
 	cg.names = []string{"S", "Items", "A"}
 }
 
+// memoLongGrammar: S <- A B "x" / A B "y" ; A <- "a"+ ; B <- "b"* on an input of several thousand bytes: the second alternative
+// re-reads A and B at offsets whose table entries were made many thousand offsets earlier (round 22: the memo table thrown away
+// once it covers 4096 offsets - results unchanged, every expression evaluated twice)
+func (cg *caseGen) memoLongGrammar() {
+	cg.chCount = 0
+	cg.cur = 0
+	ch := cg.newChoice()
+	ch.Kids = []*pvcase.Expr{seqOf(refTo("A"), refTo("B"), cg.litOf("x")), seqOf(refTo("A"), refTo("B"), cg.litOf("y"))}
+	cg.rules = []*pvcase.Rule{
+		{Name: "S", Expr: ch},
+		{Name: "A", Expr: un(pvcase.KPlus, cg.litOf("a"))},
+		{Name: "B", Expr: un(pvcase.KStar, cg.litOf("b"))},
+	}
+	cg.names = []string{"S", "A", "B"}
+}
+
 // ------------------------------------------------------------------ cases
 
 func renumber(c *pvcase.Case) {
@@ -829,6 +845,7 @@ func (g *generator) genCase(prof string) ([]*pvcase.Case, *caseGen) {
 	deepRec := prof == "throw" && !recFamily && g.chance(0.03) // recovery expressions nested as deep as the input is long
 	statsRec := prof == "throw" && !recFamily && !deepRec && (g.chance(0.04) || (os.Getenv("PVGEN_FORCE") == "statsrec" && g.chance(0.7)))
 	memoFlood := prof == "memo" && g.chance(0.03) // a re-parsed span with dozens of distinct code-block errors
+	memoLong := prof == "memo" && !memoFlood && g.chance(0.004) // a re-parsed span of several thousand bytes
 	// a keyword table: dozens of different terminals tried at one offset (the expected set of a failure there lists all)
 	wide := (prof == "core" || prof == "utf8") && g.chance(0.03)
 	switch prof {
@@ -906,6 +923,8 @@ func (g *generator) genCase(prof string) ([]*pvcase.Case, *caseGen) {
 			cg.floodGrammar(flood)
 		case memoFlood:
 			cg.memoFloodGrammar()
+		case memoLong:
+			cg.memoLongGrammar()
 		case prof == "lr" || lrBudget:
 			cg.lrGrammar()
 		case wide:
@@ -1013,6 +1032,12 @@ func (g *generator) genCase(prof string) ([]*pvcase.Case, *caseGen) {
 		c.Input = []byte(strings.Repeat("!a", k) + pickStr(g.r, []string{"b", "b", "b", "", "!"}))
 		o.MaxExpr = 0
 	}
+	if memoLong {
+		n := []int{1000, 4090, 4100, 5000, 9000}[g.r.IntN(5)] // both sides of 4096
+		c.Input = append(append([]byte("aa"), bytes.Repeat([]byte("b"), n)...), pickStr(g.r, []string{"y", "y", "x", "z"})...)
+		o.MaxExpr = 0
+		o.Memoize = true
+	}
 	if memoFlood {
 		n := 3 + g.r.IntN(40) // both sides of any small window
 		c.Input = append(bytes.Repeat([]byte("a"), n), pickStr(g.r, []string{"y", "y", "x", "z"})...)
@@ -1044,6 +1069,9 @@ func (g *generator) genCase(prof string) ([]*pvcase.Case, *caseGen) {
 	c.Fuel = fuelFor(o.MaxExpr)
 	if deepRec {
 		c.Fuel = 6000 // about a dozen levels of the interpreter per nested recovery
+	}
+	if memoLong {
+		c.Fuel = 12000 // the model's repetition takes one unit of fuel per iteration
 	}
 
 	out := []*pvcase.Case{c}
